@@ -167,6 +167,16 @@ def _scenarios() -> Dict[str, List[Tuple[int, str]]]:
 
 
 SCENARIOS: Dict[str, List[Tuple[int, str]]] = _scenarios()
+QUICK_SCENARIOS = sorted(SCENARIOS)
+# thorough: every pair of requests at every pair of tick counts
+for _t1 in range(0, N_TICKS + 1):
+    for _t2 in range(_t1, N_TICKS + 3):
+        for _o1 in ('pause', 'play', 'kill'):
+            for _o2 in ('pause', 'play', 'kill'):
+                _key = f'{_o1}@{_t1}+{_o2}@{_t2}'
+                SCENARIOS.setdefault(_key, [(_t1, _o1), (_t2, _o2)])
+                if _t2 <= _t1 + 1 and _key not in QUICK_SCENARIOS:
+                    QUICK_SCENARIOS.append(_key)  # two requests in the same or in adjacent loop slots
 
 
 class Run:
@@ -419,12 +429,12 @@ def check_scenario(scenario: str) -> Dict[str, Any]:
 
 
 def run_check(tier: str, seed: int, workers: Any) -> Dict[str, Any]:
-    names = sorted(SCENARIOS)
+    names = QUICK_SCENARIOS if tier == 'quick' else sorted(SCENARIOS)
     k = seed % len(names)
     names = names[k:] + names[:k]
     total: Dict[str, Any] = {'n': 0, 'violations': [], 'reached': 0, 'sites': set()}
     with mp.get_context('fork').Pool(min(len(names), workers or os.cpu_count() or 1)) as pool:
-        for res in pool.imap_unordered(check_scenario, names):
+        for res in pool.imap_unordered(check_scenario, names, chunksize=4):
             total['n'] += res['n']
             total['reached'] += res['reached']
             total['sites'] |= res['sites']
